@@ -258,6 +258,12 @@ def opt_model(case):
         ds.append({"id": "d5", "type": "Distribution", "distribution": "torch.distributions.Normal",
                    "parameters": {"loc": [f(), f()], "scale": [s(), s()]},
                    "x": {"id": "v", "type": "Parameter", "full_like": "w", "tensor": 0.25}})
+    if case.get("plate"):
+        # optimised parameters DEFINED INSIDE A PLATE (both numbering forms): their ids exist only after expansion
+        ds.append({"type": "Plate", "range": "0:3", "var": "i",
+                   "object": _normal("dp.${i}", "xp.${i}", [f()], [s()], [f()])})
+        ds.append({"type": "Plate", "range": "0:2",
+                   "object": _normal("dq*", "xq*", [f(), f()], [s(), s()], [f(), f()])})
     if case.get("unused"):
         # a parameter the loss does not depend on (the optimiser keeps no state for it), registered on its own
         return [{"id": "u", "type": "Parameter", "tensor": [f(), f()]},
@@ -269,6 +275,8 @@ def opt_config(case, ck, iters, freq):
     pars = ["x", "y", "z"] + (["w", "v"] if case.get("explicit32") else [])
     if case.get("unused"):
         pars = ["x", "u", "y", "z"]
+    if case.get("plate"):
+        pars = pars + ["xp.0", "xp.1", "xp.2", "xq0", "xq1"]
     if case.get("groups"):
         pj = [{"params": ["x"], "lr": case["lr"] * 0.5}, {"params": pars[1:]}]
     else:
@@ -659,6 +667,8 @@ def _batch(rng, tier, cases, suffix):
              N=N, K=K, groups=True, scheduler=sch[0][1]))
     add(dict(algo="optimizer", family="opt:Adam[explicit-float32-parameter]", algorithm="torch.optim.Adam",
              options={}, lr=0.05, N=N, K=K, explicit32=True))
+    add(dict(algo="optimizer", family="opt:Adam[parameters-defined-in-plates]", algorithm="torch.optim.Adam",
+             options={}, lr=0.05, N=N, K=K, plate=True))
     add(dict(algo="optimizer", family="opt:Adam[unused-parameter-in-the-middle]", algorithm="torch.optim.Adam",
              options={}, lr=0.05, N=N, K=K, unused=True))
     add(dict(algo="optimizer", family="opt:SGD-momentum[unused-parameter-in-the-middle]", algorithm="torch.optim.SGD",
